@@ -290,12 +290,17 @@ def rescore_path(mt, family, model, counters=None, stamps=None, cfg=None):
                 step_ok = True
                 if family == "distance" and not latlon:
                     step_ok = close(x.lpe, cur["lpe"], rel)
+                xk = getattr(stamps, "xk", {}).get(prev_entry.key, 0)
                 if wx is not None and wp is not None and wx < wp and step_ok and not prev_entry.stop \
-                        and (xp > wp or prev_entry.delayed > mt.expand_now):
+                        and (xp > wp or xk > wp or prev_entry.delayed > getattr(stamps, "wround", {}).get(id(prev_entry), mt.expand_now)):
                     # the predecessor was replaced in place AFTER this state was written, and it was either expanded again
                     # (the regenerated candidate for this state was not better, or is forbidden by the no-revisit rule) or
-                    # postponed by the width pruning of that round.  A predecessor that was replaced and then neither
-                    # expanded nor postponed does NOT match (that is the bug repaired by ba170ae).
+                    # postponed by the width pruning of the round it was replaced in (delayed beyond that round; a non-emitting
+                    # entry is not taken up again by itself in later rounds, only through its parents), or (third form, thorough run 3) the non-emitting search
+                    # expanded ANOTHER candidate object filed under the predecessor's key after the replacement: when two
+                    # candidates for one key arrive in one non-emitting layer, the first is scheduled for expansion and the
+                    # second, better one is merged into the stored entry only.  A predecessor that was replaced and then neither
+                    # expanded (under its key) nor postponed does NOT match (that is the bug repaired by ba170ae).
                     mech = "stale-child-of-entry-replaced-in-a-later-round"
             if mech:
                 out.append((f"{bad[0]}:{mech}", f"state {x.key}: reported logprob={bad[1]!r}; its predecessor {prev_entry.key} (now "
